@@ -16,6 +16,10 @@ explicit work lists (which end is popped, which end and in which order the child
 Round 5: `_unique_tasks(..)` / a running `seen` set of id(t) is the identity de-duplication; a receiving tree built as
 [receiver] + root.all_children (root task missing) is refuted; _collect_subtree as a work list; members_listed_once (an append of
 argument elements into a child list needs `not in`, the argument list is never spliced into the shared list as it is).
+Round 6: the path condition of a `return <cursor>` in _find_root is read propositionally (exit of a compound while test plus a
+later test may only IMPLY top-and-detached; a condition that allows an attached cursor is refuted); next(<local generator>);
+search loops with `if <no match>: continue`; unlink_and_reroot (c01.mirror_parent) also runs under C05; c01.own is called through
+a proxy that keeps the constructor's dynamic attribute store a site when it moves into a private helper of __init__ / clone.
 Not decided: a memoised all_children whose invalidation looks complete (UNDECIDED); id tests written with running `picked`
 sets or other idioms the evaluator does not model (UNDECIDED).
 """
@@ -57,10 +61,7 @@ def check(ctx):
                "parent/children state and the list shared with the children facade are written only inside the owner set: every way of "
                "attaching a task passes the id checks of the two setters (shared rule with C01)", floor=20)
 
-    def own(o):
-        from . import c01
-        c01.own(ctx, o, eff)
-    ctx.guarded(o, own)
+    ctx.guarded(o, lambda o: own_shared(ctx, o, eff))
 
     o = ctx.ob('check_precedes_attach_parent', 'R3',
                "parent setter: a detached task (sub)tree is checked with _has_id_intersection(new parent, [task]) before any relation write, "
@@ -96,6 +97,16 @@ def check(ctx):
                floor=1)
     ctx.guarded(o, lambda o: __import__('rules.c05_util', fromlist=['listed_once']).listed_once(ctx, o))
 
+    o = ctx.ob('unlink_and_reroot', 'R4',
+               "a re-parented task is unlinked from its RAW old parent, the hidden WBS root task included (shared rule with C01/C11): "
+               "through the public parent a root-level member moved below another task stays in the root list and is listed twice in "
+               "WBS.tasks", floor=4)
+
+    def _mirror(o):
+        from . import c01
+        c01.mirror_parent(ctx, o)
+    ctx.guarded(o, _mirror)
+
     o = ctx.ob('receiving_tree_scope', 'R8',
                "the receiving tree is the whole WBS: _find_root returns the WBS root task of an attached task (task.wbs._root()), and "
                "otherwise climbs to the top of the detached tree", floor=2)
@@ -111,6 +122,39 @@ def check(ctx):
                "WBS[id] returns the first member with t.id == id and turns StopIteration into RuntimeError; WBS.tasks is all_children of the "
                "root task; all_children yields a child before its subtree in list order", floor=4)
     ctx.guarded(o, lambda o: lookup(ctx, o))
+
+
+class _OwnProxy:
+    """c01.own allows dynamic attribute stores (`x.__setattr__(k, v)`) in Task.__init__ and on the fresh copy in clone by the NAME of
+    the function.  A private helper that only those two call (`__set_attributes(kwargs)`) is the same code under another name: its
+    finding is turned back into the site it is on /repo HEAD.  Everything else is passed through."""
+
+    def __init__(self, ctx, o):
+        self._ctx, self._o = ctx, o
+
+    def __getattr__(self, name):
+        return getattr(self._o, name)
+
+    def refute(self, func, node, construct, msg):
+        if func is not None and msg.startswith("attribute store with a computed name") and func.cls == 'Task' and \
+                func.name.startswith('__') and not func.name.endswith('__') and self._only_ctor_callers(func):
+            return self._o.site(func, node, "dynamic attribute store in a private helper of the constructor / clone")
+        return self._o.refute(func, node, construct, msg)
+
+    def _only_ctor_callers(self, g) -> bool:
+        callers = []
+        for f in self._ctx.prog.all_funcs():
+            if isinstance(f.node, ast.Lambda) or f is g:
+                continue
+            for ci in self._ctx.cg.calls_in(f):
+                if g in [t for t in ci.targets if t is not None]:
+                    callers.append(f.qual)
+        return bool(callers) and set(callers) <= {'task.Task.__init__', 'task.Task.clone'}
+
+
+def own_shared(ctx, o, eff):
+    from . import c01
+    c01.own(ctx, _OwnProxy(ctx, o), eff)
 
 
 def _unchanged_skip(f, e) -> str:
@@ -286,6 +330,15 @@ def scope(ctx, o):
             raw_top = says(cs, f"{c}._Task__parent is None", True)
             pub_top = says(cs, f"{c}.parent is None", True)
             det = says(cs, f"{c}.wbs is None", True) or says(cs, f"{c}._Task__wbs is None", True)
+            if not raw_top and not (pub_top and det):
+                # the condition may only IMPLY it (exit of `while c.wbs is None and c.parent is not None` + `c.wbs is None`)
+                C = T.F_and(*[_cform(t, c) if q else T.F_not(_cform(t, c)) for t, q in cs]) if cs else ('const', True)
+                R, P, W = T.F_atom('rawtop'), T.F_atom('pubtop'), T.F_atom('detached')
+                if T.implication(C, [T.F_or(R, T.F_and(P, W))]) is None:
+                    raw_top = T.implication(C, [R]) is None
+                    pub_top = det = not raw_top
+                elif T.implication(C, [P]) is None:
+                    pub_top = True
             if raw_top:
                 o.site(f, r, "attached task: the raw parent chain ends at the WBS root task")
                 o.site(f, r, "detached task: climbs until there is no parent")
@@ -296,7 +349,15 @@ def scope(ctx, o):
                                             "task also for an ATTACHED task (no jump to task.wbs._root() on that path): the scope of the id "
                                             "check is one top-level branch, not the WBS")
             else:
-                known = all(_about_cursor(t, cursor_expr) for t, q in cs)
+                C = T.F_and(*[_cform(t, c) if q else T.F_not(_cform(t, c)) for t, q in cs]) if cs else ('const', True)
+                closed = not any(a.startswith('opaque:') for a in T.atoms_of(C))
+                if closed and T.implication(T.F_and(C, T.F_not(T.F_atom('detached'))), []) is not None and \
+                        T.implication(C, [T.F_atom('rawtop')]) is not None:
+                    o.refute(f, r, '_find_root', f"_find_root can return `{c}` for an ATTACHED task (the path condition "
+                                                f"`{', '.join(facts.cond_texts(cs))[:80]}` allows `{c}.wbs is not None`) instead of the WBS root "
+                                                f"task: the scope of the id check is not the whole WBS")
+                    continue
+                known = closed or all(_about_cursor(t, cursor_expr) for t, q in cs)
                 if known:
                     o.refute(f, r, 'climb', f"_find_root returns `{c}` without having reached a task with no parent: it does not climb to "
                                             f"the top of a detached tree")
@@ -304,6 +365,23 @@ def scope(ctx, o):
                     o.undecided(f, r, r, f"`return {c}` under conditions the rule cannot interpret: " + ', '.join(facts.cond_texts(cs))[:120])
             continue
         o.undecided(f, r, r, f"_find_root returns `{src(v)[:60]}`: unrecognised form of the root search")
+
+
+def _cform(t, c):
+    """formula of a test over the atoms rawtop (c.__parent is None), pubtop (c.parent is None), detached (c.wbs is None)"""
+    if isinstance(t, ast.UnaryOp) and isinstance(t.op, ast.Not):
+        return T.F_not(_cform(t.operand, c))
+    if isinstance(t, ast.BoolOp):
+        parts = [_cform(v, c) for v in t.values]
+        return ('and', parts) if isinstance(t.op, ast.And) else ('or', parts)
+    if isinstance(t, ast.Constant):
+        return ('const', bool(t.value))
+    core, pol = facts.norm_cond(t, True)
+    for pat, name in ((f"{c}._Task__parent is None", 'rawtop'), (f"{c}.parent is None", 'pubtop'), (f"{c}.wbs is None", 'detached'),
+                      (f"{c}._Task__wbs is None", 'detached')):
+        if match(pat, core):
+            return T.F_atom(name) if pol else T.F_not(T.F_atom(name))
+    return T.F_atom('opaque:' + src(t)[:60])
 
 
 def _about_cursor(t, cursor_expr) -> bool:
@@ -339,6 +417,14 @@ def _search_loop(g, pid):
         return None
     lp = loops[0]
     tv = lp.target.id
+    if len(lp.body) == 2 and isinstance(lp.body[0], ast.If) and not lp.body[0].orelse and len(lp.body[0].body) == 1 and \
+            isinstance(lp.body[0].body[0], ast.Continue) and isinstance(lp.body[1], ast.Return) and not lp.orelse:
+        # `if <not test>: continue ; return t`  ==  `if <test>: return t`
+        t0, q0 = facts.norm_cond(lp.body[0].test, False)
+        test = t0 if q0 else ast.UnaryOp(op=ast.Not(), operand=t0)
+        lp = ast.For(target=lp.target, iter=lp.iter, body=[ast.If(test=test, body=[lp.body[1]], orelse=[])], orelse=[])
+        ast.copy_location(lp, loops[0])
+        ast.fix_missing_locations(lp)
     if len(lp.body) != 1 or not isinstance(lp.body[0], ast.If) or lp.body[0].orelse or lp.orelse:
         return None
     iff = lp.body[0]
@@ -432,6 +518,8 @@ def lookup(ctx, o):
     for n in walk_no_nested(f.node):
         if isinstance(n, ast.Call) and isinstance(n.func, ast.Name) and n.func.id == 'next' and n.args:
             parts = facts.comp_parts(n.args[0])
+            if not parts and isinstance(n.args[0], ast.Name):
+                parts = facts.comp_parts(Expander(prog, f, ctx.typer, inline=False).expand(n.args[0], cfg_of(f).node_containing(n)))
             if parts:
                 elt, tgt, it, ifs = parts
                 it = Expander(prog, f, ctx.typer, inline=False).expand(it, cfg_of(f).node_containing(n))
